@@ -9,7 +9,7 @@ import (
 )
 
 func verifSnapshot(ctx *risc.Context, m *msi, ccs []*cacheController, l3 *comp.LRUCache) comp.VerifSnap {
-	s := comp.VerifSnap{LineSize: l1DCacheLineSize, L3LineSize: l3CacheLineSize, Memory: ctx.Memory, L3: comp.VerifLines(l3.ExistingLines())}
+	s := comp.VerifSnap{LineSize: l1DCacheLineSize, L3LineSize: l3CacheLineSize, Memory: ctx.Memory, L3: comp.VerifLines(l3.Lines())}
 	for _, cc := range ccs {
 		s.Cores = append(s.Cores, comp.VerifCore{
 			Lines:     comp.VerifLines(cc.l1d.Lines()),
